@@ -39,6 +39,21 @@ func (li *loopInfo) rangeIndexAlloc() *ssa.Alloc {
 	return nil
 }
 
+// mapRange returns the range instruction of a "for ... range m" loop over a
+// map: the loop header asks the iterator for the next key.
+func (li *loopInfo) mapRange() *ssa.Range {
+	for _, in := range li.header.Instrs {
+		if n, ok := in.(*ssa.Next); ok && !n.IsString {
+			if r, ok := n.Iter.(*ssa.Range); ok {
+				if _, isMap := r.X.Type().Underlying().(*types.Map); isMap {
+					return r
+				}
+			}
+		}
+	}
+	return nil
+}
+
 // findLoops discovers natural loops and binds them to source ordinals.
 func (fr *Frame) findLoops(order []*ssa.BasicBlock) {
 	fr.loops = map[*ssa.BasicBlock]*loopInfo{}
@@ -368,6 +383,7 @@ func (fr *Frame) enterLoop(li *loopInfo, pre *State, pc Term) *State {
 		env := fr.specEnv(pre, pc)
 		env.pre = li.pre
 		fr.curRangeIdx = li.rangeIndexAlloc()
+		fr.curRange = li.mapRange()
 		for _, inv := range li.spec.Invariants {
 			if strings.Contains(inv.Src, "prev(") {
 				continue // transition invariant: checked at back edges only
@@ -375,6 +391,7 @@ func (fr *Frame) enterLoop(li *loopInfo, pre *State, pc Term) *State {
 			vc.obligeClause("inv-entry", inv.Label, site+":"+labelOr(inv.Label, "inv"), pc, env, inv)
 		}
 		fr.curRangeIdx = nil
+		fr.curRange = nil
 	}
 	cells, heaps, top, allocs := fr.loopWrites(li)
 	st := pre.clone()
@@ -466,6 +483,7 @@ func (fr *Frame) enterLoop(li *loopInfo, pre *State, pc Term) *State {
 		env := fr.specEnv(st, pc)
 		env.pre = li.pre
 		fr.curRangeIdx = li.rangeIndexAlloc()
+		fr.curRange = li.mapRange()
 		for _, inv := range li.spec.Invariants {
 			if strings.Contains(inv.Src, "prev(") {
 				continue
@@ -473,6 +491,7 @@ func (fr *Frame) enterLoop(li *loopInfo, pre *State, pc Term) *State {
 			vc.assumeClause(pc, env, inv)
 		}
 		fr.curRangeIdx = nil
+		fr.curRange = nil
 	}
 	vc.cover(site+":body", pc)
 	return st
@@ -490,10 +509,12 @@ func (fr *Frame) backEdge(li *loopInfo, st *State, guard Term) {
 	env.pre = li.pre
 	env.prev = li.hdr
 	fr.curRangeIdx = li.rangeIndexAlloc()
+	fr.curRange = li.mapRange()
 	for _, inv := range li.spec.Invariants {
 		vc.obligeClause("inv-step", inv.Label, site+":"+labelOr(inv.Label, "inv"), guard, env, inv)
 	}
 	fr.curRangeIdx = nil
+	fr.curRange = nil
 	if li.spec.HasMod && !li.modTop {
 		for _, h := range li.modHeaps {
 			if vc.heapInfo[h] == nil {
@@ -734,6 +755,11 @@ func (vc *VC) frameFormula(cur, was Term, heap string, regs []region, wm Term) T
 		}
 		if r.isElem && !r.whole {
 			partial = append(partial, r)
+			continue
+		}
+		if r.isElem {
+			// the elements of a nil slice (backing array 0): no location at all
+			excl = append(excl, or(eq(r.ref, tZero), not(eq(Term{"fr", SInt}, r.ref))))
 			continue
 		}
 		excl = append(excl, not(eq(Term{"fr", SInt}, r.ref)))
